@@ -197,12 +197,22 @@ def _content(cat, z, fill):
         a = rs.random_sample((N, N)) * 100
         a[rs.random_sample((N, N)) < 0.1] = 0.0
         a[rs.randint(N), rs.randint(N)] += 300
+        u = rs.random_sample()
+        if u < 0.05:
+            a[...] = 0.0
+        elif u < 0.1:
+            a[...] = 7.0
         return a
     if cat == "img3d":
         a = rs.random_sample((K, N, N)) * 100
         a[rs.random_sample((K, N, N)) < 0.1] = 0.0
         for k in range(K):
             a[k, rs.randint(N), rs.randint(N)] += 300
+        u = rs.random_sample()
+        if u < 0.12:
+            a[rs.randint(K)] = 0.0            # an un-illuminated frame
+        elif u < 0.2:
+            a[rs.randint(K)] = 7.0            # a flat frame
         return a
     if cat == "img4d":
         return rs.random_sample((2, K, N, N)) * 100
@@ -477,6 +487,7 @@ def execute(plan, keep_log=False):
     used = [False] * len(heap)
     last_user = [None] * len(heap)   # which function touched this array last (programs mixing functions on shared arrays)
     seen = {}            # repeat-call memory: key -> (result key, step)
+    held = []            # result arrays of earlier calls (function results belong to the caller and must never change later)
     poison = Poison()
     poison.install()
     versions = [0] * len(heap)
@@ -548,7 +559,7 @@ def execute(plan, keep_log=False):
     kern.__enter__()
     kern.configure((plan.get("pool") or {}).get("sched"), (plan.get("pool") or {}).get("mode", "inproc"))
     try:
-        _run_program(plan, res, log, z, specs, heap, snaps, used, last_user, seen, poison, versions, restore, check_heap, do_call, copies)
+        _run_program(plan, res, log, z, specs, heap, snaps, used, last_user, seen, poison, versions, restore, check_heap, do_call, copies, held)
     finally:
         kern.__exit__(None, None, None)
     poison.uninstall()
@@ -559,7 +570,7 @@ def execute(plan, keep_log=False):
     return res
 
 
-def _run_program(plan, res, log, z, specs, heap, snaps, used, last_user, seen, poison, versions, restore, check_heap, do_call, copies):
+def _run_program(plan, res, log, z, specs, heap, snaps, used, last_user, seen, poison, versions, restore, check_heap, do_call, copies, held):
     import numpy
     with seams.SimEnv(plan["entropy"]) as env:
         seams.reset_ambient(1)
@@ -698,6 +709,23 @@ def _run_program(plan, res, log, z, specs, heap, snaps, used, last_user, seen, p
                                     "(poisoned uninitialised memory: %s)" % (fname, S, si, seen[key][1], bool(st.get("poison"))), si)
                 else:
                     seen[key] = (rk, si)
+            # ---- results handed out by earlier calls must still be what they were (the library must not keep and reuse them)
+            for hk in list(held):
+                s0, n0, arr0, b0 = hk
+                try:
+                    same = arr0.tobytes() == b0
+                except Exception:
+                    same = True
+                if not same:
+                    res.violate("hidden-state", "C20:returned-array-changed-by-a-later-call:%s" % n0,
+                                "an array returned by %s at step %d was modified while %s ran at step %d: the library kept and reused it"
+                                % (n0, s0, fname, si), si)
+                    held.remove(hk)
+            if r1[0] == "ok" and not st.get("scribble") and not e["random"] and "PhaseScreen" not in fname:
+                for leaf in r1[1]:
+                    if leaf[0] == "a" and leaf[4].ndim > 0 and leaf[4].size <= 4096 and len(held) < 40 \
+                            and not any(numpy.may_share_memory(leaf[4], hp) for hp in heap):
+                        held.append((si, fname, leaf[4], leaf[4].tobytes()))
             # ---- the result belongs to the caller, who may overwrite it in place (never when it aliases an argument)
             if st.get("scribble") and r1[0] == "ok":
                 for leaf in r1[1]:
